@@ -105,7 +105,12 @@ class InterWorkflowPort(Port):
         ]:
             boundary.remove_tag(token.tag)
             if boundary.is_satisfied():
-                self._execute_boundary_action(boundary, token)
+                if port is self:
+                    # The token is already in this port: do not propagate it again
+                    if BoundaryAction.TERMINATE in boundary_action:
+                        super().put(TerminationToken(Status.RECOVERED))
+                else:
+                    self._execute_boundary_action(boundary, token)
 
     def put(self, token: Token) -> None:
         if isinstance(token, TerminationToken):
